@@ -66,7 +66,7 @@ def get_permissions(p1, r1, w1, p2, r2, w2, with_root, rr, rw, target):
 READ = ("cwd", "cdup", "list", "mlsd", "mlst", "retr")
 WRITE = ("mkd", "rmd", "dele", "rnfr", "rnto", "stor", "appe")
 TREE = {"/srv": "dir", "/srv/a": "dir", "/srv/a/f": b"hello", "/srv/a/d": "dir", "/srv/a/d/g": b"g", "/srv/zz": b"", "/srv/e": "dir"}
-ARGS = ["a/f", "/a/d/../f", "zz", "/a/d/g", "../a/d", "a", "/", "a/new", "/a/d/new", "e", "a//d/./g", "new", "/a/d/../../zz", "d"]
+ARGS = ["a/f", "/a/d/../f", "zz", "/a/d/g", "../a/d", "a", "/", "//a/d/g", "a/new", "/a/d/new", "e", "a//d/./g", "new", "/a/d/../../zz", "d", "//a/f", "///a/d", "//zz", "//"]
 MUTATORS = ("mkdir", "rmdir", "unlink", "rename", "write")
 
 
